@@ -165,6 +165,12 @@ def render_single(c):
     if b == 'case-insensitive':
         return 'select %s from %s where %s = 1' % (a, t1.replace('int1.', 'INT1.'), bb)
     # selects WITHOUT a FROM clause that still read the integration (through scalar sub-selects / outer columns)
+    # lists longer than a handful with the interesting (qualified) item late in them
+    if b.startswith('long-in-list-late-column-'):
+        n_ = int(b.rsplit('-', 1)[1])
+        return 'select %s from %s where %s in (%s, %s)' % (a, t1, a, ', '.join(str(5 + i) for i in range(n_)), bb)
+    if b == 'many-targets-late-qualified':
+        return 'select %s, %s from %s where %s = 1' % (', '.join('%d as k%d' % (i, i) for i in range(30)), bb, t1, a)
     if b == 'fromless-scalars':
         return 'select (select max(%s) from %s) as m, (select count(*) from int1.t2) as n' % (a, t1)
     if b == 'union-fromless-branch':
